@@ -156,9 +156,10 @@ inline void build( Handler& h, Handler* sub, Dest& d, const Json& recipe, Built&
       if (sort) tryOpt( out, "setSortData", [ &] { a->setSortData(); });
       if (unique == 1) tryOpt( out, "setUniqueData", [ &] { a->setUniqueData(); });
       if (unique == 2) tryOpt( out, "setUniqueData(true)", [ &] { a->setUniqueData( true); ai.unique_error = true; });
-      if (card == "max") tryOpt( out, "cardinality_max", [ &] { a->setCardinality( pa::cardinality_max( 4)); ai.max_values = 4; });
-      if (card == "exact") tryOpt( out, "cardinality_exact", [ &] { a->setCardinality( pa::cardinality_exact( 3)); ai.exact_values = 3; });
-      if (card == "range") tryOpt( out, "cardinality_range", [ &] { a->setCardinality( pa::cardinality_range( 1, 5)); ai.max_values = 5; });
+      // with a cardinality the values of all uses add up: use such an argument once
+      if (card == "max") tryOpt( out, "cardinality_max", [ &] { a->setCardinality( pa::cardinality_max( 4)); ai.max_values = 4; ai.once = true; });
+      if (card == "exact") tryOpt( out, "cardinality_exact", [ &] { a->setCardinality( pa::cardinality_exact( 3)); ai.exact_values = 3; ai.once = true; });
+      if (card == "range") tryOpt( out, "cardinality_range", [ &] { a->setCardinality( pa::cardinality_range( 1, 5)); ai.max_values = 5; ai.once = true; });
    };
 
    if (has( recipe, "R1"))
@@ -205,13 +206,13 @@ inline void build( Handler& h, Handler* sub, Dest& d, const Json& recipe, Built&
       const bool  opt = recipe.gets( "optmode") == "optional";
       auto  a1 = h.addArgument( "o,opt-int", DEST_VAR( d.oi), "optional int");
       auto  a2 = h.addArgument( "p,opt-str", DEST_VAR( d.os), "optional string");
+      ArgInfo  i1{ "o", "opt-int", kOptInt}, i2{ "p", "opt-str", kOptStr};
       if (opt)
       {
-         tryOpt( out, "ValueMode::optional", [ &] { a1->setValueMode( Handler::ValueMode::optional); });
-         tryOpt( out, "ValueMode::optional", [ &] { a2->setValueMode( Handler::ValueMode::optional); });
+         // (the library may refuse the mode for this destination type)
+         tryOpt( out, "ValueMode::optional", [ &] { a1->setValueMode( Handler::ValueMode::optional); i1.optional_value = true; });
+         tryOpt( out, "ValueMode::optional", [ &] { a2->setValueMode( Handler::ValueMode::optional); i2.optional_value = true; });
       }
-      ArgInfo  i1{ "o", "opt-int", kOptInt}, i2{ "p", "opt-str", kOptStr};
-      i1.optional_value = i2.optional_value = opt;
       out.args.push_back( i1);
       out.args.push_back( i2);
    }
@@ -324,12 +325,14 @@ inline Json genRecipe( Rng& rng, bool allow_positional, bool allow_subgroup)
       used[ pick] = true;
       chosen.push( sets[ pick]);
    }
-   if (allow_positional && rng.chance( 1, 4)) chosen.push( "R12");
+   // free multi-value words and positional words compete for the same words
+   const bool  multi = rng.chance( 1, 3);
+   if (allow_positional && !multi && rng.chance( 1, 4)) chosen.push( "R12");
    if (allow_subgroup && rng.chance( 1, 6)) chosen.push( "R14");
    r[ "sets"] = chosen;
    static const char* const  seps[] = { ",", ",", ";", ":", ".", "+", "|" };
    r[ "sep"] = seps[ rng.below( 7)];
-   r[ "multi"] = rng.chance( 1, 3);
+   r[ "multi"] = multi;
    r[ "sort"] = rng.chance( 1, 4);
    r[ "unique"] = static_cast< long long>( rng.chance( 1, 2) ? 0 : rng.range( 1, 2));
    r[ "clear"] = rng.chance( 1, 5);
